@@ -174,9 +174,47 @@ func (r *RoundTripper) RoundTripOpt(req *http.Request, opt RoundTripOpt) (*http.
 			if nerr, ok := err.(net.Error); ok && nerr.Timeout() {
 				return r.RoundTripOpt(req, opt)
 			}
+			// The cached connection turned out to be dead (closed by the peer or
+			// by an earlier error) before this request got a response: like
+			// net/http does for a closed idle connection, retry a replayable
+			// request once on a fresh connection (the client was removed from
+			// the cache above, so the retry is not "reused" again).
+			if isConnectionError(err) && isReplayableWithoutBody(req) && !opt.OnlyCachedConn {
+				return r.RoundTripOpt(req, opt)
+			}
 		}
 	}
 	return rsp, err
+}
+
+// isConnectionError reports whether err says that the QUIC connection as a whole
+// (not just the request stream) is gone.
+func isConnectionError(err error) bool {
+	var (
+		appErr       *quic.ApplicationError
+		transportErr *quic.TransportError
+		idleErr      *quic.IdleTimeoutError
+		resetErr     *quic.StatelessResetError
+	)
+	return errors.As(err, &appErr) || errors.As(err, &transportErr) ||
+		errors.As(err, &idleErr) || errors.As(err, &resetErr)
+}
+
+// isReplayableWithoutBody reports whether req can be sent again as is: an idempotent
+// method (or an Idempotency-Key) and no body that may already have been consumed.
+func isReplayableWithoutBody(req *http.Request) bool {
+	if req.Body != nil && req.Body != http.NoBody {
+		return false
+	}
+	switch req.Method {
+	case "", http.MethodGet, http.MethodHead, http.MethodOptions, http.MethodTrace:
+		return true
+	}
+	_, ok := req.Header["Idempotency-Key"]
+	if !ok {
+		_, ok = req.Header["X-Idempotency-Key"]
+	}
+	return ok
 }
 
 // RoundTrip does a round trip.
@@ -243,6 +281,19 @@ func (r *RoundTripper) getClient(ctx context.Context, hostname string, onlyCache
 	}
 
 	cl, ok := r.clients[hostname]
+	if ok {
+		// A cached connection that has been closed in the meantime (by the peer, by an
+		// error while a response body was being read, by an idle timeout) cannot serve
+		// requests any more: forget it and dial again instead of failing the next request.
+		select {
+		case <-cl.dialing:
+			if cl.dialErr == nil && cl.conn != nil && cl.conn.Context().Err() != nil {
+				delete(r.clients, hostname)
+				ok = false
+			}
+		default:
+		}
+	}
 	if !ok {
 		if onlyCached {
 			return nil, false, ErrNoCachedConn
